@@ -26,6 +26,7 @@ CODECS = {
 BIT_FLAGS = {"kiai": (1, "effects")}
 # trailing fields the format makes optional (storyboard `Sample,time,layer,"file"[,volume]`, volume defaults to 100)
 OPTIONAL_SLOTS = {"OsuSample": (4, "volume", 100)}
+CTL_ = "_sa_controls"
 NOTE_META = "reamber.osu.OsuNoteMeta.OsuNoteMeta"
 TP_META = "reamber.osu.OsuTimingPointMeta.OsuTimingPointMeta"
 
@@ -202,6 +203,22 @@ def _compat(rops: List[str], wops: List[str], space_after: bool) -> Tuple[str, s
     return R.UNDEC, f"reader {rops} vs writer {wops}"
 
 
+def _float_producers(ctx, field: str) -> List[str]:
+    """library statements that store a true-division result into `<obj>.<field>`"""
+    M = ctx.M
+    out = []
+    for q, fn in M.funcs.items():
+        if not q.startswith("reamber.") or CTL_ in q:
+            continue
+        for n in walk_no_nested(fn.node):
+            if isinstance(n, ast.AugAssign) and isinstance(n.op, ast.Div) and isinstance(n.target, ast.Attribute) and n.target.attr == field:
+                out.append(f"'{unparse(n)}' in {'.'.join(q.split('.')[-2:])}")
+            elif isinstance(n, ast.Assign) and isinstance(n.targets[0], ast.Attribute) and n.targets[0].attr == field and any(
+                    isinstance(x, ast.BinOp) and isinstance(x.op, ast.Div) for x in ast.walk(n.value)):
+                out.append(f"'{unparse(n)}' in {'.'.join(q.split('.')[-2:])}")
+    return out
+
+
 def rule_r1(ctx) -> List[R.Inst]:
     M = ctx.M
     rt, others, _, rfn = read_meta_table(ctx)
@@ -227,6 +244,13 @@ def rule_r1(ctx) -> List[R.Inst]:
                                 construct=f"{key}: {rf} != {wf}"))
             continue
         st, why = _compat(rops, wops, space)
+        if st == R.OK and [o for o in rops if o != "strip"] == ["int"] and "int" not in wops:
+            # the reader parses an integer; the writer prints the value as it is.  Fine while the field holds integers — but a
+            # library operation that divides it (rate) makes it a float, and '57598.7' is not readable by int()
+            prod = _float_producers(ctx, rf)
+            if prod:
+                st, why = R.VIOL, (f"read with int() but written without int(): {prod[0]} makes '{rf}' a float, the writer then emits "
+                                   f"text like '57598.67' that the reader rejects (ValueError) — rate, write, read fails")
         insts.append(R.Inst("C01.R1", f"meta:{key}", st, rfile, wnode.lineno if st != R.OK else ifn.lineno,
                             f"key '{key}' ({rf}): {why}", construct=f"{key}: reader {rops} writer {wops}",
                             idiom=why if st == R.OK else ""))
